@@ -105,8 +105,9 @@ func NewProcess(opts ...ProcOpts) *Process {
 
 func (p *Process) run() int {
 	verif.Yield("run:enter")
-	if p.isState(types.ProcessStateTerminating) {
-		// stopped before it was launched: it is over, say so (state, done flag)
+	if p.isState(types.ProcessStateTerminating) || p.procRunCtx.Err() != nil {
+		// stopped before it was launched (the run context is this instance's own stop marker; the
+		// state is shared with other instances of the process): it is over, say so (state, done flag)
 		p.onProcessEnd(types.ProcessStateCompleted)
 		return 0
 	}
